@@ -29,8 +29,15 @@
                                                                  rejected_witnesses_repaired, wcoll_user_unchanged_false
   "with a diagnostic and a non-zero exit before anything is      refused_nothing_started, refusal_exits_1 (status 1, or 0
    contacted"                                                    only for -L -V -T); that a diagnostic is printed is
-                                                                 observed on the real binary (oracle), not modelled
-  "pdsh never hangs on it"                                       never_hangs, never_hangs_whole (main as a whole, all
+                                                                 observed on the real binary (oracle), not modelled;
+                                                                 EVERY statement of main.c / opt.c that ends the process
+                                                                 before dsh() — incl. "no hosts", module loading, the
+                                                                 program name — is enumerated from the source by a generated
+                                                                 probe and mapped to a model outcome: C08.every_refusal_exits_1,
+                                                                 C08.exit_sites_all_mapped, C08.battery_agrees (Props/C08.lean,
+                                                                 Dsh/ExitRefuse.lean; vlib/exitrefuse.py: one real command
+                                                                 line per path, diagnostic and trace-file oracle)
+  "pdsh never hangs on it"                                      never_hangs, never_hangs_whole (main as a whole, all
                                                                  three personalities), never_hangs_fanout (composed with
                                                                  the fan-out LTS of C03: no deadlock, bounded executions
                                                                  for the accepted fanout), never_hangs_unchanged_false
@@ -39,6 +46,11 @@
                                                                  numeric_options_use_table_conv
   the same at the point where a setting takes effect (the user  contacts_order_independent, contact_user_is_setting,
    every target is contacted with; composed with C09's model)    contacts_witness
+  ... the connect / command time-out the watchdog enforces        timeouts_in_force (composed with the timed model of C07:
+                                                                 connect_deadline, command_deadline, unlimited_never_interrupted
+                                                                 for THE numbers the accepted record carries)
+  ... the program every target of a copy is asked to run         remote_program_in_force (composed with C11's pdcpCmd / rpdcpCmd),
+                                                                 remote_program_witnesses
   pdsh / pdcp / rpdcp option sets (generated option strings)     personality_letters, dsh_remote_path_default,
                                                                  pcp_no_S_no_k, S_k_iff_on_command_line
   the remote command, the prompt loop (main as a whole)          command_is_operands, command_words_verbatim,
@@ -58,9 +70,13 @@
     * what a module's option handler does with its argument; only its arity matters here (`Defaults.modOpts`).
     * point of use: the user every target is contacted with is modelled (Opt/Use.lean, composed with C09's registry
       model) and observed on real runs in every option order; the fanout and the command time-out in force are
-      OBSERVED where they take effect (overlapping commands, a command cut short) for every source and position, their
-      use inside dsh() is C03/C04's and C07's model; the connect time-out (exec refuses it) and the remote pdcp path
-      (no exec transport for the copy personalities in this build) are only observed where they are stored (-q).
+      OBSERVED where they take effect (overlapping commands, a command cut short) for every source and position — the
+      fanout also under RLIMIT_NOFILE 30 / 33 / 35 / 36 / 37 / 40 (below the 2 * fanout + 32 descriptors dsh() would like) —,
+      their use inside dsh() is C03/C04's and C07's model (timeouts_in_force imports C07's deadlines); the connect time-out
+      is observed through the REAL rsh module against a scripted peer that answers the handshake late or never
+      (vlib/optuse.py), the remote pdcp path through tests/test-modules/pcptest.so with wrapper programs that record their
+      own name, each for every source (command line / environment / default) and option position; the theorems about
+      them are compositions with C07 / C11's definitions, not with a model of xrcmd.c / pcp_server.c.
 -/
 import PdshVerif.Opt.Settings
 import PdshVerif.Opt.Spec
